@@ -203,7 +203,7 @@ def coq_make(targets, timeout=1500):
 
 def coqc_file(path, cwd, timeout=900, out_vo=None):
     cmd = ["timeout", str(timeout), "coqc", "-Q", os.path.join(COQ, "theories"), "MTX",
-           "-Q", os.path.join(COQ, "gen"), "MTXGen", "-w", "-notation-overridden"]
+           "-Q", os.path.join(COQ, "gen"), "MTXGen", "-w", "-notation-overridden", "-noglob"]
     if out_vo:
         cmd += ["-o", out_vo]
     cmd.append(path)
